@@ -54,17 +54,17 @@ Proof. vm_compute. discriminate. Qed.
 Example ex_hypotheses :
   ok_spelling ex_short ex_sp1 /\ ok_spelling ex_short ex_sp2 /\
   no_fname_case (surface ex_sp1) = true /\ no_fname_case (surface ex_sp2) = true /\
-  DocInv c08_doc /\ ns_lookup [] None = None /\ xnons ex_short = true.
+  DocInv c08_doc /\ xnons ex_short = true.
 Proof.
   split; [repeat split; vm_compute; reflexivity|]. split; [repeat split; vm_compute; reflexivity|].
-  split; [vm_compute; reflexivity|]. split; [vm_compute; reflexivity|]. split; [exact c08_doc_inv|]. split; vm_compute; reflexivity.
+  split; [vm_compute; reflexivity|]. split; [vm_compute; reflexivity|]. split; [exact c08_doc_inv|]. vm_compute; reflexivity.
 Qed.
 
 Example ex_same_value : forall v,
   query_model c08_doc [] (spell ex_short ex_sp1) = QValue v <-> query_model c08_doc [] (spell ex_short ex_sp2) = QValue v.
 Proof.
-  destruct ex_hypotheses as (H1 & H2 & N1 & N2 & HD & HN & HX).
-  exact (spelling_irrelevant_ok_proof c08_doc [] ex_short ex_sp1 ex_sp2 H1 H2 N1 N2 HD HN HX).
+  destruct ex_hypotheses as (H1 & H2 & N1 & N2 & HD & HX).
+  exact (spelling_irrelevant_ok_proof c08_doc [] ex_short ex_sp1 ex_sp2 H1 H2 N1 N2 HD HX).
 Qed.
 
 (** the value, computed: the outer element [a] (row 3), once *)
@@ -111,39 +111,37 @@ Definition ex_n2 : xexpr :=
   XPath (SAbs SSlash) (XStep AOmit TAny []) [(SSlash, XStep AOmit TAny [XBin BEq position_call (XPathSyntax.XNum [49])])].
 Definition ex_default_ns : list (option str * str) := [(None, [117])].
 
-(** with a default namespace in the context the call of [position()] is an unknown function *)
+(** with a default namespace in the context (an extension: [Context::add_ns(None, ..)]) the call of
+    [position()] used to be an unknown function (defect D63: [/*/*[position() = 1]] was the error
+    NotFoundFunction(position) where [/*/*[1]] had a value); repaired in 9d405ca: an unprefixed
+    function name is in no namespace, and the two spellings agree under every binding list *)
 Example ex_default_namespace :
   ok_spelling ex_n1 (sp_of ex_n1) /\ ok_spelling ex_n1 (sp_of ex_n2) /\
-  no_fname_case ex_n1 = true /\ no_fname_case ex_n2 = true /\ xnons ex_n1 = true /\
+  no_fname_case ex_n1 = true /\ no_fname_case ex_n2 = true /\ lnorm ex_n1 = lnorm ex_n2 /\
   query_model c08_doc ex_default_ns (spell ex_n1 (sp_of ex_n1)) = QValue (XNodes [3]) /\
-  query_model c08_doc ex_default_ns (spell ex_n1 (sp_of ex_n2)) = QError (XErrNotFoundFunction t_position).
+  query_model c08_doc ex_default_ns (spell ex_n1 (sp_of ex_n2)) = QValue (XNodes [3]).
 Proof.
   split; [repeat split; vm_compute; reflexivity|]. split; [repeat split; vm_compute; reflexivity|].
   repeat split; vm_compute; reflexivity.
+Qed.
+
+Example ex_default_namespace_same :
+  query_model c08_doc ex_default_ns (spell ex_n1 (sp_of ex_n1)) = query_model c08_doc ex_default_ns (spell ex_n1 (sp_of ex_n2)).
+Proof.
+  destruct ex_default_namespace as (H1 & H2 & N1 & N2 & E & _).
+  exact (spelling_irrelevant_light_proof c08_doc ex_default_ns ex_n1 (sp_of ex_n1) (sp_of ex_n2) H1 H2 N1 N2 E).
 Qed.
 
 (** the full statement of C08 (equal results, errors included) does not hold for the model *)
 Theorem error_order_refuted_proof : exists doc bind a sp1 sp2,
   ok_spelling a sp1 /\ ok_spelling a sp2 /\
   no_fname_case (surface sp1) = true /\ no_fname_case (surface sp2) = true /\
-  DocInv doc /\ ns_lookup bind None = None /\ xnons a = true /\
+  DocInv doc /\ xnons a = true /\
   query_model doc bind (spell a sp1) <> query_model doc bind (spell a sp2).
 Proof.
   destruct ex_error_order as (H1 & H2 & N1 & N2 & HX & Q1 & Q2).
   exists c08_doc, [], ex_e1, (sp_of ex_e1), (sp_of ex_e2).
   repeat (split; [first [assumption|exact c08_doc_inv|reflexivity]|]). rewrite Q1, Q2. discriminate.
-Qed.
-
-(** ... and with a default namespace in the context a value can face an error *)
-Theorem default_namespace_refuted_proof : exists doc bind a sp1 sp2 v,
-  ok_spelling a sp1 /\ ok_spelling a sp2 /\
-  no_fname_case (surface sp1) = true /\ no_fname_case (surface sp2) = true /\
-  DocInv doc /\ xnons a = true /\
-  query_model doc bind (spell a sp1) = QValue v /\ forall v', query_model doc bind (spell a sp2) <> QValue v'.
-Proof.
-  destruct ex_default_namespace as (H1 & H2 & N1 & N2 & HX & Q1 & Q2).
-  exists c08_doc, ex_default_ns, ex_n1, (sp_of ex_n1), (sp_of ex_n2), (XNodes [3]).
-  repeat (split; [first [assumption|exact c08_doc_inv]|]). intros v'. rewrite Q2. discriminate.
 Qed.
 
 (** ** an instance of [spelling_irrelevant_light]: the namespace axis, an error *)
@@ -166,7 +164,7 @@ Qed.
 Example ex_light_same : query_model c08_doc [] (spell ex_l1 (sp_of ex_l1)) = query_model c08_doc [] (spell ex_l1 (sp_of ex_l2)).
 Proof.
   destruct ex_light_hypotheses as (H1 & H2 & N1 & N2 & E & _).
-  exact (spelling_irrelevant_light_proof c08_doc [] ex_l1 (sp_of ex_l1) (sp_of ex_l2) H1 H2 N1 N2 E eq_refl).
+  exact (spelling_irrelevant_light_proof c08_doc [] ex_l1 (sp_of ex_l1) (sp_of ex_l2) H1 H2 N1 N2 E).
 Qed.
 
 Example ex_light_value : query_model c08_doc [] (spell ex_l1 (sp_of ex_l1)) = QError (XErrNotFoundVariable [118]).
@@ -212,7 +210,7 @@ Example ex_ord_same : forall v,
   query_model c08_dtd_doc [] (spell ex_o1 (sp_of ex_o1)) = QValue v <-> query_model c08_dtd_doc [] (spell ex_o1 (sp_of ex_o2)) = QValue v.
 Proof.
   destruct ex_ord_hypotheses as (H1 & H2 & N1 & N2 & _).
-  exact (spelling_irrelevant_ord_proof c08_dtd_doc [] ex_o1 (sp_of ex_o1) (sp_of ex_o2) H1 H2 N1 N2 (proj1 c08_dtd_doc_ord) eq_refl).
+  exact (spelling_irrelevant_ord_proof c08_dtd_doc [] ex_o1 (sp_of ex_o1) (sp_of ex_o2) H1 H2 N1 N2 (proj1 c08_dtd_doc_ord)).
 Qed.
 
 (** the value: the first of the nodes with key 0 (D19 conflates them) *)
